@@ -3,6 +3,10 @@
 import sys, os, shutil, json, re, subprocess
 prop, var, det, needs = sys.argv[1:5]
 src = "/tmp/wt/%s/_seed/%s" % (prop, var)
+log = "/tmp/wt/confirm-%s-%s.log" % (prop, var)
+if "w" in prop:          # later waves: C03w4 a -> seeded/C03-w4a
+    prop, wave = prop.split("w")
+    var = "w%s%s" % (wave, var)
 dst = "/verif/seeded/%s-%s" % (prop, var)
 shutil.rmtree(dst, ignore_errors=True)
 os.makedirs(dst)
@@ -10,7 +14,6 @@ for f in os.listdir(src):
     p = os.path.join(src, f)
     if os.path.isfile(p) and os.path.getsize(p) < 300000 and not f.endswith(".log"):
         shutil.copy(p, dst)
-log = "/tmp/wt/confirm-%s-%s.log" % (prop, var)
 conf = {}
 if os.path.exists(log):
     t = open(log, errors="replace").read()
